@@ -19,6 +19,7 @@ inductive MOp
   | get (r : Nat) (armed : Bool)
   | rel (r : Nat)
   | back (r : Nat)
+  | mark (r : Nat)   -- the holder turns its event into a split parent (SetChildParentKind)
   | hb
   deriving DecidableEq, Repr
 
@@ -43,6 +44,7 @@ def MOp.render : MOp → String
   | .get r false => s!"g{r}"
   | .rel r => s!"r{r}"
   | .back r => s!"b{r}"
+  | .mark r => s!"k{r}"
   | .hb => "h"
 
 def Status.render : Status → String
@@ -64,7 +66,7 @@ structure Gates where
   deriving Repr
 
 def MOp.reader : MOp → List Nat
-  | .get r _ | .rel r | .back r => [r]
+  | .get r _ | .rel r | .back r | .mark r => [r]
   | .hb => []
 
 /-- settle order: (before the heartbeat: the reader of the op itself, then) the readers observed as
@@ -108,6 +110,9 @@ def applyOp (c : Cfg) (m : MS) : MOp → Option MS
     else none
   | .back r => do
     let s ← step? c m.s (.bDec r)
+    pure { m with s := s }
+  | .mark r => do
+    let s ← step? c m.s (.mark r)
     pure { m with s := s }
   | .hb => some m
 
@@ -176,6 +181,9 @@ def applyOp (m : MS) : MOp → Option MS
     else none
   | .back r => do
     let s ← step? m.s (.bstart r)
+    pure { m with s := s }
+  | .mark r => do
+    let s ← step? m.s (.mark r)
     pure { m with s := s }
   | .hb => some m
 
